@@ -19,6 +19,20 @@
      - an array element that does not parse is only skipped when a ',' follows,
        otherwise its error is returned (so every iteration consumes input).
 
+   The boolean [depth_fixed] selects the third repair: [parse_setting] becomes
+   [parse_setting_at_depth(i, depth)], called with depth 0 from
+   [parse_key_value] and with [depth + 1] for the elements of an array, and a
+   '[' met at [depth >= MAX_SETTING_DEPTH] is an [UnexpectedToken('[')] error
+   located at that bracket.  With [depth_fixed = false] the [depth] argument of
+   the mirror is a ghost counter (the Rust function has no such parameter): it
+   is the number of [parse_setting] frames below the current one.
+
+   The native stack is modelled as a budget of frames of [parse_setting]
+   ([stack = Some s]: room for [s] frames; [None]: unbounded).  A call nested in
+   [depth] frames needs frame number [depth + 1]; when it does not exist the
+   process is aborted (SIGSEGV / SIGABRT) — an outcome the property forbids as
+   much as a panic, so it is [Panic] here.
+
    Definitions only (this file must compile even when a proof breaks). *)
 From Coq Require Import List Arith NArith Bool Lia.
 From GV Require Import Common.Outcome.
@@ -285,10 +299,19 @@ Definition add_duplicate_occurrence (errs : list herror) (orig dup : span) : out
   | None => Done (errs ++ [{| ekind := DuplicateEntry; elocs := [orig; dup] |}])
   end.
 
+(* const MAX_SETTING_DEPTH: usize = 64 *)
+Definition MAX_SETTING_DEPTH : nat := 64.
+
 (* ---- the parser ----------------------------------------------------------- *)
 Section Parser.
 Variable fixed : bool.
+Variable depth_fixed : bool.
+Variable stack : option nat.
 Variable src : list N.
+
+(* no room for a frame on top of [depth] frames *)
+Definition stack_exhausted (depth : nat) : bool :=
+  match stack with Some s => s <=? depth | None => false end.
 
 (* fn parse_ws(&self, i) *)
 Definition parse_ws (i : nat) : outcome nat :=
@@ -341,8 +364,9 @@ Definition parse_namespaced (i : nat) : outcome (res (namespaced * nat)) :=
       end
   end.
 
-(* fn parse_setting(&self, i) and its array loop.  The three non-recursive
-   arms of the function are written as separate definitions (same order of
+(* fn parse_setting(&self, i) = parse_setting_at_depth(i, 0) and the array loop
+   of fn parse_setting_at_depth(&self, i, depth).  The three non-recursive arms
+   of the function are written as separate definitions (same order of
    operations as the Rust text). *)
 
 (* arm [Some(m)] of [RE_DIGITS.find(&self.src[i..])], mend = m.end() *)
@@ -396,10 +420,12 @@ Definition setting_path (i : nat) : outcome (res (setting * nat)) :=
       end
   end.
 
-Fixpoint parse_setting (fuel : nat) (i0 : nat) {struct fuel} : outcome (res (setting * nat)) :=
+Fixpoint parse_setting (fuel : nat) (depth : nat) (i0 : nat) {struct fuel}
+  : outcome (res (setting * nat)) :=
   match fuel with
   | 0 => OutOfFuel
   | S f =>
+    if stack_exhausted depth then Panic else
     do i <- parse_ws i0;
     do rest <- slice_from src i;
     match re_digits rest with
@@ -411,13 +437,17 @@ Fixpoint parse_setting (fuel : nat) (i0 : nat) {struct fuel} : outcome (res (set
       | None =>
           do la <- lookahead_is LBRACK i;
           match la with
-          | Some j => array_loop f i j j []
+          | Some j =>
+              if depth_fixed && (MAX_SETTING_DEPTH <=? depth) then
+                do sp <- mk_span i j;
+                Done (Err {| ekind := UnexpectedToken 91; elocs := [sp] |})
+              else array_loop f depth i j j []
           | None => setting_path i
           end
       end
     end
   end
-with array_loop (fuel : nat) (i open_pos j0 : nat) (vals : list setting) {struct fuel}
+with array_loop (fuel : nat) (depth : nat) (i open_pos j0 : nat) (vals : list setting) {struct fuel}
   : outcome (res (setting * nat)) :=
   match fuel with
   | 0 => OutOfFuel
@@ -430,12 +460,12 @@ with array_loop (fuel : nat) (i open_pos j0 : nat) (vals : list setting) {struct
         do csp <- mk_span j end_pos;
         Done (Ok (Array vals osp csp, end_pos))
     | None =>
-        do r <- parse_setting f j;
+        do r <- parse_setting f (S depth) j;
         match r with
         | Ok (val, k) =>
             do j1 <- parse_ws k;
             do la1 <- lookahead_is COMMA j1;
-            array_loop f i open_pos (match la1 with Some k1 => k1 | None => j1 end) (vals ++ [val])
+            array_loop f depth i open_pos (match la1 with Some k1 => k1 | None => j1 end) (vals ++ [val])
         | Err e =>
             (* pinned code: the error is dropped ([if let Ok(..)]);
                repaired code: it is returned unless a ',' follows *)
@@ -444,7 +474,7 @@ with array_loop (fuel : nat) (i open_pos j0 : nat) (vals : list setting) {struct
             | None => Done (Err e)
             | Some _ =>
                 do la1 <- lookahead_is COMMA j;
-                array_loop f i open_pos (match la1 with Some k1 => k1 | None => j end) vals
+                array_loop f depth i open_pos (match la1 with Some k1 => k1 | None => j end) vals
             end
         end
     end
@@ -475,7 +505,7 @@ Definition parse_key_value (fuel : nat) (i : nat)
           do la1 <- lookahead_is COLON i1;
           match la1 with
           | Some j1 =>
-              do r2 <- parse_setting fuel j1;
+              do r2 <- parse_setting fuel 0 j1;
               match r2 with
               | Err e => Done (Err e)
               | Ok (val, j2) => Done (Ok (key_name, key_span, SettingV val, j2))
@@ -569,10 +599,14 @@ End Parser.
    byte length of the text *)
 Definition fuel_for (src : list N) : nat := 2 * byte_len src + 4.
 
-Definition parse_header_gen (fixed required : bool) (fuel : nat) (src : list N) : outcome hresult :=
-  parse fixed src required fuel.
+Definition parse_header_gen (fixed depth_fixed required : bool) (stack : option nat) (fuel : nat)
+  (src : list N) : outcome hresult :=
+  parse fixed depth_fixed stack src required fuel.
 
-(* the code as pinned *)
-Definition parse_header_orig := parse_header_gen false.
-(* the code after the two proposed repairs *)
-Definition parse_header_fixed := parse_header_gen true.
+(* the code as pinned (on an unbounded stack) *)
+Definition parse_header_orig (required : bool) : nat -> list N -> outcome hresult :=
+  parse_header_gen false false required None.
+(* the code after the first two repairs, without / with the nesting limit (on an
+   unbounded stack) *)
+Definition parse_header_fixed (depth_fixed required : bool) : nat -> list N -> outcome hresult :=
+  parse_header_gen true depth_fixed required None.
